@@ -249,6 +249,55 @@ fn literal_cases(max_entries: usize) -> Vec<Case> {
     out
 }
 
+/// names that are not text, property values shared with other holders, interpolated names
+fn extra_cases() -> Vec<Case> {
+    let mut v = vec![];
+    // property names cut out of multi-byte characters: two different byte strings are two
+    // different names (or both are rejected), never one
+    let frags = ["\"é\"[0]", "\"é\"[1]", "\"ñ\"[1]", "\"€\"[1:3]", "\"€\"[0:2]", "\"a\"", "\"é\""];
+    for k1 in frags {
+        for k2 in frags {
+            for prog in [
+                "o := {}\nprint(\"pre\")\no[K1] = 1\nprint(\"one\")\no[K2] = 2\nprint(\"two\")\nn := 0\nfor e in o {\nn += 1\n}\nprint(n)\nprint(o[K1])\n",
+                "print(\"pre\")\no := {K1: 1, K2: 2}\nn := 0\nfor e in o {\nn += 1\n}\nprint(n)\n",
+                "o := {\"a\": 1}\nprint(\"pre\")\no[K1] += 1\nprint(\"after\")\n",
+                "o := {\"a\": 1, \"é\": 2}\nprint(\"pre\")\n{K1: p, K2: q} := o\nprint(\"after\")\n",
+            ] {
+                v.push(Case::new(prog.replace("K1", k1).replace("K2", k2), 601, format!("names {} and {}", k1, k2)));
+            }
+        }
+    }
+    // a list or string held by a property and by something else: op-assignment through the
+    // property builds a new value for that property only
+    for val in ["[1]", "\"s\"", "{\"n\": 1}"] {
+        let add = if val.starts_with('[') { "[2]" } else if val.starts_with('"') { "\"t\"" } else { "1" };
+        for share in ["o := {\"p\": l, \"q\": l}", "o := {\"p\": l}\no.q = o.p", "o := {\"p\": l}\no[\"q\"] = l", "o1 := {\"p\": l}\no := {o1.., \"q\": o1.p}", "o := {\"p\": l, \"q\": [l][0]}"] {
+            for upd in ["o.p += A", "o[\"p\"] += A", "k := \"p\"\no[k] += A", "o.p = o.p + A"] {
+                if val.starts_with('{') {
+                    continue;
+                }
+                v.push(Case::new(
+                    format!("l := {}\n{}\n{}\nprint(o.p)\nprint(o.q)\nprint(l)\nprint(o.p == o.q)\n", val, share, upd.replace('A', add)),
+                    601,
+                    format!("shared property value {} / {} / {}", val, share.replace('\n', "; "), upd),
+                ));
+            }
+        }
+    }
+    // interpolated literals as names in every naming position
+    for pos in [
+        "o := {$\"k${x}\": 1}\nprint(o)\n",
+        "o := {}\no[$\"k${x}\"] = 1\nx = \"2\"\no[$\"k${x}\"] = 2\nprint(o)\n",
+        "o := {\"k1\": 5}\nprint(o[$\"k${x}\"])\no[$\"k${x}\"] += 1\nprint(o)\n",
+        "o := {\"k1\": 5}\n{$\"k${x}\": v} := o\nprint(v)\n",
+        "o := {\"k1\": 5, \"k${x}\": 6}\nprint(o)\n",
+        "o := {\"k1\": 5}\nprint(o[\"k\" + x] == o[$\"k${x}\"])\n",
+    ] {
+        v.push(Case::new(format!("x := \"1\"\n{}", pos), 601, "interpolated name".to_string()));
+    }
+    v
+}
+
 impl Check for C12 {
     fn id(&self) -> &'static str {
         "C12"
@@ -285,6 +334,10 @@ impl Check for C12 {
             },
         )?;
         ctx.judge(literal_cases(max_entries), |c, r, o| self.oracle(c, r, o))?;
+        // entries, computed names, spreads and keyed assignments are evaluated in source order
+        let eo: Vec<Case> = super::evalorder::cases(600).into_iter().filter(|c| c.meta.contains("`r = {") || c.meta.contains("`o[") || c.meta.contains(".k")).collect();
+        ctx.judge(eo, |c, r, o| self.oracle(c, r, o))?;
+        ctx.judge(extra_cases(), |c, r, o| self.oracle(c, r, o))?;
         ctx.guard("keys were inserted in descending order", g_order);
         ctx.extra.insert(
             "bounds".into(),
